@@ -191,19 +191,26 @@ class ASTToPymbolic(ASTMapper):
 
     def map_Compare(self, expr):  # noqa
         # (expr left, cmpop* ops, expr* comparators)
-        op, = expr.ops
+        comparisons = []
+        left = self.rec(expr.left)
+        for op, right in zip(expr.ops, expr.comparators):
+            try:
+                comp = self.comparison_op_map[type(op)]
+            except KeyError:
+                raise NotImplementedError(
+                    f"{type(self).__name__} does not know how to map operator "
+                    f"'{type(op).__name__}'") from None
 
-        try:
-            comp = self.comparison_op_map[type(op)]
-        except KeyError:
-            raise NotImplementedError(
-                f"{type(self).__name__} does not know how to map operator "
-                f"'{type(expr.op).__name__}'") from None
+            right = self.rec(right)
+            comparisons.append(p.Comparison(left, comp, right))
+            left = right
 
-        # FIXME: Support strung-together comparisons
-        right, = expr.comparators
-
-        return p.Comparison(self.rec(expr.left), comp, self.rec(right))
+        if len(comparisons) == 1:
+            comparison, = comparisons
+            return comparison
+        else:
+            # a < b < c means (a < b) and (b < c)
+            return p.LogicalAnd(tuple(comparisons))
 
     def map_Call(self, expr):  # noqa
         # (expr func, expr* args, keyword* keywords)
